@@ -278,6 +278,10 @@ def gen_c07(rnd, n, thorough=False):
                 lines.append('sync %s' % nm)
                 lines.append('open %s' % nm)
                 lines.append('hdr %s' % nm)
+                if rnd.chance(0.4):
+                    # the same file under a second name (a symbolic link to it): Open accepts what the file holds
+                    lines += ['symlink %s l%s' % (nm, nm), 'open l%s' % nm, 'hdr l%s' % nm]
+                    tags['ops']['open_via_symlink'] = tags['ops'].get('open_via_symlink', 0) + 1
         # lists built from values that were already part of another list (laid out by NewHeader, by
         # the parser, by a created and reopened file): acceptance depends on the list alone
         for _ in range(3):
